@@ -206,12 +206,12 @@ func (g *gen) execInstr(in ssa.Instruction, st *state) {
 		r := g.newRef(st, "closure")
 		g.vals[x] = r
 		g.closures[x] = x
-		for _, b := range x.Bindings {
+		for bi, b := range x.Bindings {
 			if l, ok := g.locs[b]; ok && l.kind == locLocal {
 				g.escaped[l.alloc] = true
 			}
 			if a, ok := b.(*ssa.Alloc); ok && a.Heap {
-				if t, ok := g.vals[a]; ok {
+				if t, ok := g.vals[a]; ok && g.closureMayWrite(x.Fn.(*ssa.Function), bi) {
 					g.captured = append(g.captured, t)
 				}
 			}
@@ -1011,4 +1011,58 @@ func (g *gen) checkFuncConversion(x *ssa.ChangeType) {
 		ok2 = false
 	}
 	g.oblige("closure-contract", g.P.relName(fn)+" used as "+nt.Obj().Name()+" must have a verified contract with the type's frame", x.Pos(), boolLit(ok2), nil)
+}
+
+// closureMayWrite: can the closure (or anything it hands the variable to) write its i-th captured variable?
+func (g *gen) closureMayWrite(fn *ssa.Function, i int) bool {
+	if i >= len(fn.FreeVars) {
+		return true
+	}
+	fv := fn.FreeVars[i]
+	if fv.Referrers() == nil {
+		return false
+	}
+	var derived func(v ssa.Value, depth int) bool
+	derived = func(v ssa.Value, depth int) bool {
+		if depth > 6 || v.Referrers() == nil {
+			return depth > 6
+		}
+		for _, r := range *v.Referrers() {
+			switch u := r.(type) {
+			case *ssa.DebugRef:
+			case *ssa.UnOp: // load
+			case *ssa.FieldAddr:
+				if derived(u, depth+1) {
+					return true
+				}
+			case *ssa.IndexAddr:
+				if derived(u, depth+1) {
+					return true
+				}
+			case *ssa.Store:
+				if u.Addr == v {
+					return true
+				}
+				return true // the address itself is stored somewhere
+			case *ssa.Call:
+				callee := u.Call.StaticCallee()
+				if callee == nil {
+					return true
+				}
+				if _, isModel := models[callee.String()]; isModel {
+					continue
+				}
+				con := g.P.contractFor(callee)
+				if con == nil || con.flag("synth") || len(con.Modifies) > 0 {
+					return true
+				}
+			case *ssa.MakeClosure:
+				return true
+			default:
+				return true
+			}
+		}
+		return false
+	}
+	return derived(fv, 0)
 }
